@@ -351,7 +351,7 @@ def check(prop, tier, replay=None):
         "hop sizes below one sample are not generated (the property is silent about them)",
     ]
     t = TIERS[tier]
-    invs = ["TypeOK", "C10"] if prop == "C10" else ["TypeOK", "C19", "C19Replay"]
+    invs = ["TypeOK", "C10", "AbsShape"] if prop == "C10" else ["TypeOK", "C19", "C19Replay"]
     # thorough: the large bound is explored (and exported) without close(); histories with a close() get the quick bound plus one operation
     res = tlc.run("ReaderMC", mc_cfg(t, invs, useful="Useful" if tier == "quick" else "UsefulNoClose"), wd, name="mc", timeout=3000, mem="12g")
     tlc.require_ok(res, "leg M")
@@ -372,6 +372,36 @@ def check(prop, tier, replay=None):
     if dead:
         raise MachineryError(f"leg M: actions never taken: {dead}")
     V.cov["exhaustive"] = True
+    if prop == "C10":
+        # the framing closed form for ALL source lengths, block / hop sizes, limits and any number of reads: inductive invariant of the integer
+        # abstraction ReaderInt (Apalache); AbsShape above ties the abstraction to the registers of Reader on the grid
+        obligations = [("base", ["--init=Init", "--inv=IndInv", "--length=0"], True), ("step", ["--init=IndInit", "--inv=IndInv", "--length=1"], True),
+                       ("vacuity", ["--init=IndInit", "--inv=AlwaysFull", "--length=1"], False)]
+        import shutil as _sh
+        import subprocess as _sp
+        from .common import SPEC
+        _sh.copy(os.path.join(SPEC, "ReaderInt.tla"), wd)
+        jtmp = os.path.join(wd, "jtmp")
+        os.makedirs(jtmp, exist_ok=True)
+        detail, done = {}, 0
+        for name, args, expect_ok in obligations:
+            t1 = time.time()
+            try:
+                p_ = _sp.run(["apalache-mc", "check", "--cinit=CInit", *args, f"--out-dir={wd}/apalache_{name}", "ReaderInt.tla"], cwd=wd, capture_output=True, text=True,
+                             timeout=900, env=dict(os.environ, JVM_ARGS=(os.environ.get("JVM_ARGS", "") + " -Djava.io.tmpdir=" + jtmp).strip()))
+                ok, bad, out = "EXITCODE: OK" in p_.stdout, "EXITCODE: ERROR (12)" in p_.stdout, p_.stdout[-400:]
+            except _sp.TimeoutExpired:
+                ok, bad, out = False, False, "timeout"
+            detail[name] = {"holds": ok, "refuted": bad, "wall_s": round(time.time() - t1, 1)}
+            if expect_ok and bad:
+                raise MachineryError(f"Apalache refutes obligation {name} of ReaderInt: {out}")
+            if not expect_ok and ok:
+                raise MachineryError(f"Apalache accepts the false formula of ReaderInt (vacuity control): {out}")
+            done += 1 if (ok if expect_ok else bad) else 0
+        V.leg("unbounded", tool="apalache-mc 0.58", module="ReaderInt", obligations=3, discharged=done, detail=detail,
+              checker_cmd="apalache-mc check --cinit=CInit --init=Init|IndInit --inv=IndInv|AlwaysFull --length=0|1 ReaderInt.tla")
+        V.cov["obligations"] = 3
+        V.cov["discharged"] = done
     seen = set()
     behaviours = []
     for b in res["json"]:
